@@ -401,3 +401,95 @@ mutant("c13-enter-no-yield-silent", "C13", "contextlib.py",
        "            return None  # type: ignore\n", rule="R13.3")
 neutral("c13-identity-test-like-stdlib", ["C13", "C06"], "contextlib.py",
         "                return exc is not exc_tb\n", "                return exc is not exc_val\n")
+
+# --------------------------------------------------------------------------- C09
+TEE_BODY = ("            if not buffer:\n                async with lock:\n"
+            "                    # Another peer produced an item while we were waiting for the lock.\n"
+            "                    # Proceed with the next loop iteration to yield the item.\n"
+            "                    if buffer:\n                        continue\n")
+mutant("c09-pull-outside-lock", "C09", "itertools.py",
+       TEE_BODY + "                    try:\n                        item = await iterator.__anext__()\n                    except StopAsyncIteration:\n                        break\n                    else:\n",
+       "            if not buffer:\n                async with lock:\n                    pass\n                if True:\n                    if buffer:\n                        continue\n                    try:\n                        item = await iterator.__anext__()\n                    except StopAsyncIteration:\n                        break\n                    else:\n",
+       rule="R09.1", unit="itertools.tee_peer")
+mutant("c09-no-recheck", "C09", "itertools.py", TEE_BODY,
+       "            if not buffer:\n                async with lock:\n", rule="R09.2", unit="itertools.tee_peer")
+mutant("c09-recheck-inverted", "C09", "itertools.py",
+       "                    if buffer:\n                        continue\n",
+       "                    if not buffer:\n                        continue\n", rule="R09.2")
+mutant("c09-await-inside-broadcast", "C09", "itertools.py",
+       "                        for peer_buffer in peers:\n                            peer_buffer.append(item)\n",
+       "                        for peer_buffer in peers:\n                            peer_buffer.append(item)\n                            await identity(None)\n",
+       rule="R09.3")
+mutant("c09-broadcast-skips-own", "C09", "itertools.py",
+       "                        for peer_buffer in peers:\n                            peer_buffer.append(item)\n",
+       "                        for peer_buffer in peers:\n                            if peer_buffer is not buffer:\n                                peer_buffer.append(item)\n                        buffer.append(item)\n",
+       rule="R09.3")
+mutant("c09-broadcast-partial-list", "C09", "itertools.py",
+       "                        for peer_buffer in peers:\n                            peer_buffer.append(item)\n",
+       "                        for peer_buffer in peers[:2]:\n                            peer_buffer.append(item)\n",
+       rule="R09.3")
+mutant("c09-lifo-buffer", "C09", "itertools.py",
+       "            yield buffer.popleft()\n", "            yield buffer.pop()\n", rule="R09.4")
+mutant("c09-nonremoving-read", "C09", "itertools.py",
+       "            yield buffer.popleft()\n", "            yield buffer[0]\n", rule="R09.4")
+mutant("c09-shared-single-buffer", "C09", "itertools.py",
+       "        self._buffers: List[Deque[T]] = [deque() for _ in range(n)]\n",
+       "        self._buffers: List[Deque[T]] = [deque()] * n\n", rule="R09.5")
+mutant("c09-peers-copy-per-child", "C09", "itertools.py",
+       "                peers=self._buffers,\n", "                peers=list(self._buffers),\n", rule="R09.5")
+mutant("c09-finally-keeps-buffer", "C09", "itertools.py",
+       "            if peer_buffer is buffer:\n                peers.pop(idx)\n                break\n",
+       "            if peer_buffer is buffer:\n                break\n", rule="R09.6")
+neutral("c09-rename-and-comment", ["C09", "C04", "C20"], "itertools.py",
+        "                        for peer_buffer in peers:\n                            peer_buffer.append(item)\n",
+        "                        for other in peers:\n                            other.append(item)\n")
+
+# --------------------------------------------------------------------------- C12
+mutant("c12-no-recheck-under-lock", "C12", "functools.py",
+       "                if (stored := self._instance_value) is self:\n                    # the instance attribute is still this placeholder, and we\n                    # hold the lock. Start the getter to store the value on the\n                    # instance and return the value.\n                    return await self._get_attribute()\n",
+       "                return await self._get_attribute()\n", rule="R12.1")
+mutant("c12-getter-outside-lock", "C12", "functools.py",
+       "            async with self._lock:\n                # check again for a cached value\n                if (stored := self._instance_value) is self:\n",
+       "            async with self._lock:\n                pass\n            if True:\n                # check again for a cached value\n                if (stored := self._instance_value) is self:\n",
+       rule="R12.1")
+mutant("c12-await-between-recheck-and-getter", "C12", "functools.py",
+       "                    return await self._get_attribute()\n",
+       "                    await AwaitableValue(None)\n                    return await self._get_attribute()\n", rule="R12.1")
+mutant("c12-publish-before-await", "C12", "functools.py",
+       "        value = await self._func(self._instance)\n        self._instance.__dict__[self._name] = AwaitableValue(value)\n        return value\n",
+       "        pending = self._func(self._instance)\n        self._instance.__dict__[self._name] = pending\n        value = await pending\n        return value\n",
+       rule="R12.2")
+mutant("c12-publish-in-finally", "C12", "functools.py",
+       "        value = await self._func(self._instance)\n        self._instance.__dict__[self._name] = AwaitableValue(value)\n        return value\n",
+       "        value = None\n        try:\n            value = await self._func(self._instance)\n        finally:\n            self._instance.__dict__[self._name] = AwaitableValue(value)\n        return value\n",
+       rule="R12.2")
+mutant("c12-publish-other-value", "C12", "functools.py",
+       "        self._instance.__dict__[self._name] = AwaitableValue(value)\n        return value\n",
+       "        self._instance.__dict__[self._name] = AwaitableValue(value)\n        return await self._func(self._instance)\n",
+       rule="R12.2")
+mutant("c12-suspend-before-publish", "C12", "functools.py",
+       "        value = await self._func(self._instance)\n        self._instance.__dict__[self._name] = AwaitableValue(value)\n",
+       "        value = await self._func(self._instance)\n        async with self._lock:\n            pass\n        self._instance.__dict__[self._name] = AwaitableValue(value)\n",
+       rule="R12.2")
+mutant("c12-manual-lock", "C12", "functools.py",
+       "            async with self._lock:\n                # check again for a cached value\n                if (stored := self._instance_value) is self:\n                    # the instance attribute is still this placeholder, and we\n                    # hold the lock. Start the getter to store the value on the\n                    # instance and return the value.\n                    return await self._get_attribute()\n",
+       "            await self._lock.__aenter__()\n            if (stored := self._instance_value) is self:\n                value = await self._get_attribute()\n                await self._lock.__aexit__(None, None, None)\n                return value\n            await self._lock.__aexit__(None, None, None)\n",
+       rule="R12")
+mutant("c12-data-descriptor", "C12", "functools.py",
+       "    def __get__(\n        self, instance: Optional[T], owner: Optional[Type[Any]]\n    ) -> Union[\"CachedProperty[T, R]\", Awaitable[R]]:\n",
+       "    def __set__(self, instance: Any, value: Any) -> None:\n        instance.__dict__[self.attrname] = value\n\n    def __get__(\n        self, instance: Optional[T], owner: Optional[Type[Any]]\n    ) -> Union[\"CachedProperty[T, R]\", Awaitable[R]]:\n",
+       rule="R12.4")
+mutant("c12-cache-on-descriptor", "C12", "functools.py",
+       "        cache[name] = wrapper\n        return wrapper\n",
+       "        cache[name] = wrapper\n        self.last = wrapper\n        return wrapper\n", rule="R12.4")
+mutant("c12-shared-lock", "C12", "functools.py",
+       "            self.func, instance, name, self._asynccontextmanager_type()\n",
+       "            self.func, instance, name, self._asynccontextmanager_type\n", rule="R12.4")
+mutant("c12-deleted-slot-reuses-self", "C12", "functools.py",
+       "            return getattr(self._instance, self._name)\n", "            return self\n", rule="R12.5")
+mutant("c12-awaitablevalue-suspends", "C12", "functools.py",
+       "        return self.value\n        yield  # type: ignore # pragma: no cover\n",
+       "        yield  # type: ignore # pragma: no cover\n        return self.value\n", rule="R12.6")
+neutral("c12-recheck-two-statements", ["C12", "C17", "C18"], "functools.py",
+        "                if (stored := self._instance_value) is self:\n                    # the instance attribute is still this placeholder, and we\n",
+        "                stored = self._instance_value\n                if stored is self:\n                    # the instance attribute is still this placeholder, and we\n")
